@@ -135,10 +135,11 @@ def run_lines(binary, lines, workers=16, timeout=1800):
     return answers
 
 def write_replay(prop, kind, entries, note=""):
-    os.makedirs(os.path.join(ROOT, "replays"), exist_ok=True)
+    rdir = os.environ.get("VERIF_SCRATCH_OUT") or os.path.join(ROOT, "replays")   # scratch: seeded-change runs
+    os.makedirs(rdir, exist_ok=True)
     i = 0
     while True:
-        path = os.path.join(ROOT, "replays", "%s-%d.txt" % (prop, i))
+        path = os.path.join(rdir, "%s-%d.txt" % (prop, i))
         if not os.path.exists(path):
             break
         i += 1
@@ -202,7 +203,7 @@ def main():
     violations = []     # (kind, replay path, text)
     known_printed = []
     known = load_known()
-    evidence_path = os.path.join(ROOT, "evidence", prop + ".json")
+    evidence_path = os.path.join(os.environ.get("VERIF_SCRATCH_OUT") or os.path.join(ROOT, "evidence"), prop + ".json")
     os.makedirs(os.path.dirname(evidence_path), exist_ok=True)
 
     # ---------- 1. harness build
